@@ -241,7 +241,7 @@ func H_C09_NewTx() {
 	if zzverif.Tier() == 0 {
 		h_c09_newtx(64)
 	} else {
-		h_c09_newtx(110)
+		h_c09_newtx(84) // 110 did not finish inside the path budget
 	}
 }
 
